@@ -223,6 +223,7 @@ func genProfile(r *rand.Rand, i int) *profile.Profile {
 	// every source has its own duration and comment, some their own binary; one in ten has no
 	// samples at all (an idle server) and still counts as fetched
 	p.DurationNanos = int64(1+r.Intn(5)) * 1000000000
+	p.TimeNanos = int64(r.Intn(4)) * 1000000000 // 0: a source that does not say when it was collected
 	p.Comments = []string{fmt.Sprintf("source %d", i)}
 	if r.Intn(4) == 0 {
 		m.File = fmt.Sprintf("/bin/other%d", r.Intn(3))
@@ -468,6 +469,17 @@ func run(c *harness.Ctx) harness.Result {
 				}
 				if hdr(want) != hdr(sp) {
 					return harness.Violation("%s: header of the profile saved with -proto differs from the merge of the %d successful sources:\n got %s\nwant %s", desc, len(goodS), harness.Trunc(hdr(sp), 1500), harness.Trunc(hdr(want), 1500))
+				}
+				// the collection time is that of the earliest successful source that states one
+				// (computed here, not taken from Merge)
+				var tmin int64
+				for _, sname := range goodS {
+					if t := profs[sname].TimeNanos; t != 0 && (tmin == 0 || t < tmin) {
+						tmin = t
+					}
+				}
+				if sp.TimeNanos != tmin {
+					return harness.Violation("%s: the profile saved with -proto carries the collection time %d; the earliest time stated by the %d successful sources is %d (0 = none states one)", desc, sp.TimeNanos, len(goodS), tmin)
 				}
 				c.Stat("saved_profile_compared", 1)
 			}
